@@ -166,10 +166,11 @@ def shard(ctx, budget_s):
 
 def run(tier, seed):
     v = core.Verdict(PROP, tier, seed)
-    profiles = ("debug",) if tier == "quick" else ("debug", "release")
+    # both arithmetic profiles in both tiers: a field computed with wrapping arithmetic is wrong in release only
+    profiles = ("debug", "release")
     mx = 0
     for p in profiles:
-        res = core.run_shards(shard, PROP, tier, seed, profile=p, budget_s=25 if tier == "quick" else 240)
+        res = core.run_shards(shard, PROP, tier, seed, profile=p, budget_s=14 if tier == "quick" else 240)
         mx = max([mx] + [r.get("extra", {}).get("max_reply_len", 0) for r in res])
         v.merge(res)
     v.extra["max_reply_len"] = mx
